@@ -73,6 +73,8 @@ def lb_config(balancers=('heap', 'aperture')):
       'endpoint_name': st.sampled_from([None, None, 'aux']),
       # the type of the endpoints the provider hands out: the library's Endpoint class, or a (named) tuple of host and port
       'endpoint_type': st.sampled_from([None, None, None, 'tuple']),
+      # what a member's Close() does with requests still in flight: nothing (they complete later), or fail them on the spot
+      'close_fails_inflight': st.sampled_from([False, False, True]),
       # 0 = every endpoint once; k > 0 = one endpoint appears twice in the initial list
       'initial_dup': st.sampled_from([0, 0, 0, 1, 2, 5]),
   })
